@@ -1607,7 +1607,7 @@ static void fam_c06_badreq(G& g, Plan& p) {
     if (x < 35) P.ops.push_back(gen_alloc(g, slot, mix, 0, true));
     else if (x < 50) P.ops.push_back(gen_free(g, slot));
     else if (x < 56) P.ops.push_back(gen_realloc(g, slot, mix, 0, false));
-    else { int kind = (int)g.below(34); if (g.build == "DBG" && (kind == 6 || kind == 26)) kind = 7; P.ops.push_back(mk(OP_bad_request, slot, (uint64_t)kind, 1 + g.below(5000))); }
+    else { int kind = (int)g.below(40); if (g.build == "DBG" && (kind == 6 || kind == 26)) kind = 7; P.ops.push_back(mk(OP_bad_request, slot, (uint64_t)kind, 1 + g.below(5000))); }
   }
   P.ops.push_back(mk(OP_verify_all));
 }
